@@ -274,6 +274,50 @@ pub fn generated_psets(thorough: bool) -> Vec<(String, Pset)> {
             }
         }
     }
+    // byte-vector lengths on both sides of every compact-size boundary, in every field codec that frames a byte vector
+    // (tap-tree leaf scripts, tap_scripts, scripts, final witness items, signatures, proprietary / unknown values and keys)
+    for &len in &[0usize, 1, 75, 76, 252, 253, 254, 255, 256, 65535, 65536] {
+        let blob = |salt: u8| -> Vec<u8> { (0..len).map(|i| (i as u8).wrapping_mul(31).wrapping_add(salt)).collect() };
+        let leaf = |d: usize, sc: Vec<u8>| (d, elements::Script::from(sc), elements::taproot::LeafVersion::default());
+        // the long script as the only leaf, as the first of two and as the last of three
+        for (tag, leaves) in [
+            ("only", vec![leaf(0, blob(1))]),
+            ("first", vec![leaf(1, blob(2)), leaf(1, vec![0x51])]),
+            ("last", vec![leaf(1, vec![0x52]), leaf(2, vec![0x53, 0x54]), leaf(2, blob(3))]),
+        ] {
+            let mut b = elements::taproot::TaprootBuilder::new();
+            for (d, sc, v) in leaves {
+                b = b.add_leaf_with_ver(d, sc, v).unwrap();
+            }
+            let mut p = base_pset(1, 1, 0);
+            p.outputs_mut()[0].tap_tree = Some(elements::pset::TapTree::from_inner(b).unwrap());
+            out.push((format!("lengths/taptree-leaf-{}/{}", tag, len), p));
+        }
+        let mut p = base_pset(1, 1, 0);
+        {
+            let i = &mut p.inputs_mut()[0];
+            i.redeem_script = Some(elements::Script::from(blob(4)));
+            i.witness_script = Some(elements::Script::from(blob(5)));
+            i.final_script_sig = Some(elements::Script::from(blob(6)));
+            i.final_script_witness = Some(vec![blob(7), vec![], blob(8)]);
+            i.tap_scripts.insert(crate::psetgen::control_block(0), (elements::Script::from(blob(9)), elements::taproot::LeafVersion::default()));
+            i.partial_sigs.insert(crate::psetgen::btc_pk(1), blob(10));
+            i.proprietary.insert(crate::psetgen::prop_key(1), blob(11));
+            i.unknown.insert(elements::pset::raw::Key { type_value: 0xf0, key: blob(12) }, blob(13));
+        }
+        out.push((format!("lengths/input-fields/{}", len), p));
+        let mut p = base_pset(1, 1, 0);
+        {
+            let o = &mut p.outputs_mut()[0];
+            o.redeem_script = Some(elements::Script::from(blob(14)));
+            o.witness_script = Some(elements::Script::from(blob(15)));
+            o.proprietary.insert(elements::pset::raw::ProprietaryKey { prefix: blob(16), subtype: 7, key: blob(17) }, blob(18));
+            o.unknown.insert(elements::pset::raw::Key { type_value: 0xf1, key: blob(19) }, blob(20));
+        }
+        p.global.proprietary.insert(elements::pset::raw::ProprietaryKey { prefix: b"vendor".to_vec(), subtype: 1, key: blob(21) }, blob(22));
+        p.global.unknown.insert(elements::pset::raw::Key { type_value: 0xf2, key: blob(23) }, blob(24));
+        out.push((format!("lengths/output+global-fields/{}", len), p));
+    }
     // ELIP-100 / ELIP-102 metadata through the accessors
     {
         use elements::pset::elip100::{AssetMetadata, TokenMetadata};
@@ -429,13 +473,138 @@ fn byte_side(r: &Report, b: &[u8], full: bool) {
     }
 }
 
+/// ELIP-100 / ELIP-102 accessors as a state machine: every sequence of accessor calls of length <= `depth` over a
+/// 10-operation alphabet (set, overwrite with a different value, set for another asset, on input / output), against a
+/// reference model that is a plain map holding the latest value per key. After EVERY step: each getter equals the
+/// model, the "previous value" returned by add_* equals the model's previous value, and the same holds for the PSET
+/// after a serialize / deserialize hop (the accessors' data must be what gets serialized).
+fn accessor_histories(r: &Report, depth: usize) {
+    use elements::confidential::AssetBlindingFactor as Abf;
+    use elements::pset::elip100::{AssetMetadata, TokenMetadata};
+    let ax = AssetId::from_byte_array(pat32(3));
+    let ay = AssetId::from_byte_array(pat32(5));
+    let m1 = AssetMetadata::new("contract-one".to_string(), elements::OutPoint::new(elements::Txid::from_byte_array(pat32(1)), 4));
+    let m2 = AssetMetadata::new("{\"another\":\"contract\"}".to_string(), elements::OutPoint::new(elements::Txid::from_byte_array(pat32(2)), 0));
+    let t1 = TokenMetadata::new(ax, false);
+    let t2 = TokenMetadata::new(ay, true);
+    let b1 = Abf::from_slice(gen::tweak(5001).as_ref()).unwrap();
+    let b2 = Abf::from_slice(gen::tweak(5002).as_ref()).unwrap();
+    // the metadata types are not Clone: the model stores indices into the value menus
+    let metas = [&m1, &m2];
+    let tokens = [&t1, &t2];
+    #[derive(Clone, Default, PartialEq, Debug)]
+    struct Model {
+        asset: std::collections::BTreeMap<AssetId, usize>,
+        token: std::collections::BTreeMap<AssetId, usize>,
+        in_abf: Option<Abf>,
+        out_abf: Option<Abf>,
+    }
+    const N_OPS: usize = 10;
+    let names = ["asset(X,m1)", "asset(X,m2)", "asset(Y,m1)", "token(X,t1)", "token(X,t2)", "token(Y,t1)", "in.abf(b1)", "in.abf(b2)", "out.abf(b1)", "out.abf(b2)"];
+    let observe = |p: &Pset, m: &Model| -> Result<(), String> {
+        for a in [ax, ay] {
+            let got = p.get_asset_metadata(a).map(|x| x.map_err(|e| format!("{:?}", e)));
+            let same = match (&got, m.asset.get(&a)) {
+                (None, None) => true,
+                (Some(Ok(g)), Some(&i)) => g == metas[i],
+                _ => false,
+            };
+            if !same {
+                return Err(format!("get_asset_metadata({}) = {:?}, model: value #{:?}", a, got, m.asset.get(&a)));
+            }
+            let got = p.get_token_metadata(a).map(|x| x.map_err(|e| format!("{:?}", e)));
+            let same = match (&got, m.token.get(&a)) {
+                (None, None) => true,
+                (Some(Ok(g)), Some(&i)) => g == tokens[i],
+                _ => false,
+            };
+            if !same {
+                return Err(format!("get_token_metadata({}) = {:?}, model: value #{:?}", a, got, m.token.get(&a)));
+            }
+        }
+        let gi = p.inputs()[0].get_abf().map(|x| x.map_err(|e| format!("{:?}", e)));
+        if gi != m.in_abf.map(Ok) {
+            return Err(format!("input get_abf = {:?}, model {:?}", gi, m.in_abf));
+        }
+        let go = p.outputs()[0].get_abf().map(|x| x.map_err(|e| format!("{:?}", e)));
+        if go != m.out_abf.map(Ok) {
+            return Err(format!("output get_abf = {:?}, model {:?}", go, m.out_abf));
+        }
+        Ok(())
+    };
+    let mut total = 0u64;
+    for len in 1..=depth {
+        let seqs = crate::engine::product_vec(&vec![N_OPS; len]);
+        total += seqs.len() as u64;
+        seqs.par_iter().for_each(|seq| {
+            let mut p = base_pset(1, 1, 0);
+            let mut m = Model::default();
+            for (step, &op) in seq.iter().enumerate() {
+                r.trans(1);
+                let case = || json!({"accessor_history": seq.iter().map(|&o| names[o]).collect::<Vec<_>>(), "step": step});
+                // apply to the implementation and to the model; compare the reported previous value
+                let prev_ok = match op {
+                    0 | 1 | 2 => {
+                        let (a, mi) = [(ax, 0usize), (ax, 1), (ay, 0)][op];
+                        let old = p.add_asset_metadata(a, metas[mi]).map(|x| x.map_err(|e| format!("{:?}", e)));
+                        match (old, m.asset.insert(a, mi)) {
+                            (None, None) => true,
+                            (Some(Ok(o)), Some(i)) => &o == metas[i],
+                            _ => false,
+                        }
+                    }
+                    3 | 4 | 5 => {
+                        let (a, ti) = [(ax, 0usize), (ax, 1), (ay, 0)][op - 3];
+                        let old = p.add_token_metadata(a, tokens[ti]).map(|x| x.map_err(|e| format!("{:?}", e)));
+                        match (old, m.token.insert(a, ti)) {
+                            (None, None) => true,
+                            (Some(Ok(o)), Some(i)) => &o == tokens[i],
+                            _ => false,
+                        }
+                    }
+                    6 | 7 => {
+                        let b = [b1, b2][op - 6];
+                        p.inputs_mut()[0].set_abf(b);
+                        m.in_abf = Some(b);
+                        true
+                    }
+                    _ => {
+                        let b = [b1, b2][op - 8];
+                        p.outputs_mut()[0].set_abf(b);
+                        m.out_abf = Some(b);
+                        true
+                    }
+                };
+                if !prev_ok {
+                    r.violation("value/accessors/previous-value", case(), format!("{} did not return the value previously stored", names[op]));
+                }
+                if let Err(e) = observe(&p, &m) {
+                    r.violation("value/accessors/in-memory", case(), e);
+                }
+                match guard(|| deserialize::<Pset>(&serialize(&p))) {
+                    Ok(Ok(q)) => {
+                        if let Err(e) = observe(&q, &m) {
+                            r.violation("value/accessors/after-serialization", case(), e);
+                        }
+                        if q != p {
+                            r.violation("value/accessors/roundtrip-differs", case(), "decode(encode(p)) != p after accessor calls");
+                        }
+                    }
+                    other => r.violation("value/accessors/roundtrip-failed", case(), format!("{:?}", other.map(|x| x.map(|_| ())))),
+                }
+            }
+        });
+    }
+    r.add_extra_count("accessor_histories", total);
+}
+
 pub fn run(r: &Report) {
     let thorough = r.tier.thorough();
     r.set_rule(
         "value side: strength-2 (pairwise) covering of the presence of all 66 optional/map fields (7 global, 46 input, 13 output) plus \
          all-absent / all-present, map sizes 1 and 2, shapes 0..2 inputs x 0..2 outputs x 3 base variants (plain / issuance / pegin \
          first input), 7 output modes (explicit, marked, fully blinded, commitments only, explicit amount + committed asset, committed amount + explicit asset, marked with an uncompressed blinding key), compressed and uncompressed public keys in every key-carrying field, every single field alone with both \
-         values, tap trees of every shape with <= 5 leaves (distinct and duplicate scripts, mixed leaf versions), ELIP-100/102 accessors, \
+         values, tap trees of every shape with <= 5 leaves (distinct and duplicate scripts, mixed leaf versions), byte-vector lengths 0/1/75/76/252..256/65535/65536 in every field codec that frames one (tap-tree leaves in 3 positions, scripts, witness items, signatures, proprietary / unknown keys and values), ELIP-100/102 accessors (plus every accessor-call history of length <= 3 (4) over 10 operations incl. overwrites, against a map model, in memory and after a serialization hop), \
          PSETs from from_tx; byte side per encoding: all orderings of the pairs of each map with <= 4 pairs (adjacent transpositions + \
          reversal otherwise), duplication and deletion of every pair, same-key-different-value, input/output count +-1, a map removed / \
          appended, corrupted preimage and preimage key, and the 1-deviation neighbourhood; oracle: accepted => decode(encode(decode b)) \
@@ -467,6 +636,7 @@ pub fn run(r: &Report) {
             r.violation("value/accessors", json!({"pset": crate::engine::hex(&serialize(&p))}), "ELIP-100/102 metadata set through the accessors does not survive serialization");
         }
     }
+    accessor_histories(r, r.tier.pick(3usize, 4));
     encs.sort();
     encs.dedup_by(|a, b| a.1 == b.1);
     r.set_extra("distinct_encodings", json!(encs.len()));
